@@ -91,16 +91,27 @@ func (ex *Exec) call(c *ast.CallExpr) []Term {
 			}
 		}
 		if fi, ok := ex.P.ByObj[o]; ok {
+			if ex.shouldInline(fi, c) {
+				return ex.inlineCall(c, fi, args)
+			}
 			return ex.callRepo(c, fi, args)
 		}
 		return ex.callExternal(c, o, args, argTypes)
 	}
-	// func value
+	// func value: a bound function argument of an inlined call is executed in place
+	if id, ok := fun.(*ast.Ident); ok {
+		if v, ok := ex.info.Uses[id].(*types.Var); ok {
+			if cl, ok := ex.closures[v]; ok {
+				var args []Term
+				for _, a := range c.Args {
+					args = append(args, ex.expr(a))
+				}
+				return ex.callClosure(c, cl, args)
+			}
+		}
+	}
 	for _, a := range c.Args {
 		ex.expr(a)
-	}
-	if lit, ok := fun.(*ast.FuncLit); ok {
-		_ = lit
 	}
 	ex.note("call of func value " + exprString(c.Fun) + ": results and reachable state havoc")
 	e := newEffects()
